@@ -2,6 +2,7 @@ package cboc
 
 import (
 	"bufio"
+	"encoding/base64"
 	"encoding/hex"
 	"encoding/json"
 	"os"
@@ -39,14 +40,22 @@ func parseEvent(w *ev.Writer, idx int, class string, b []byte) {
 	runtime.ReadMemStats(&ms1)
 	m["ms"] = int(time.Since(t0).Milliseconds())
 	m["alloc_kb"] = int((ms1.TotalAlloc - ms0.TotalAlloc) / 1024)
+	m["nroots"] = -1
+	if m["panic"] == "" && err == nil {
+		m["nroots"] = len(roots)
+	}
+	// the convenience entry points over the same parser (hex / base64 text, exactly-one-root variants)
+	m["helpers"], m["hpanic"] = helperCalls(b, hx)
 	if m["panic"] == "" && err == nil {
 		m["ok"] = true
 		t := cells.Project(roots)
 		if t.Cyclic {
 			m["cyclic"] = true
 		} else {
-			m["cells"] = t.Cells
-			m["roots"] = t.Roots
+			if len(t.Roots) > 0 { // (a bag that declares no root returns an empty list)
+				m["cells"] = t.Cells
+				m["roots"] = t.Roots
+			}
 			// hashing, printing and re-serialising must terminate without a crash, in time proportional to the input
 			post := "ok"
 			hs := []string{}
@@ -87,6 +96,46 @@ func parseEvent(w *ev.Writer, idx int, class string, b []byte) {
 		}
 	}
 	w.Emit(m)
+}
+
+// helperCalls: number of roots returned by DeserializeBocHex / DeserializeBocBase64 and by the three single-root
+// variants (-1 = error), and the first panic among them.
+func helperCalls(b []byte, hx string) ([]int, string) {
+	b64 := base64.StdEncoding.EncodeToString(b)
+	pan := ""
+	many := func(name string, f func() ([]*boc.Cell, error)) int {
+		n := -1
+		func() {
+			defer func() {
+				if r := recover(); r != nil && pan == "" {
+					pan = name + ": " + fmt.Sprint(r)
+				}
+			}()
+			if cs, err := f(); err == nil {
+				n = len(cs)
+			}
+		}()
+		return n
+	}
+	one := func(name string, f func() (*boc.Cell, error)) int {
+		return many(name, func() ([]*boc.Cell, error) {
+			c, err := f()
+			if err != nil {
+				return nil, err
+			}
+			if c == nil {
+				return nil, nil // "ok" with no cell: counted as 0 roots, which no input explains
+			}
+			return []*boc.Cell{c}, nil
+		})
+	}
+	return []int{
+		many("DeserializeBocHex", func() ([]*boc.Cell, error) { return boc.DeserializeBocHex(hx) }),
+		many("DeserializeBocBase64", func() ([]*boc.Cell, error) { return boc.DeserializeBocBase64(b64) }),
+		one("DeserializeSingleRootBoc", func() (*boc.Cell, error) { return boc.DeserializeSingleRootBoc(b) }),
+		one("DeserializeSinglRootHex", func() (*boc.Cell, error) { return boc.DeserializeSinglRootHex(hx) }),
+		one("DeserializeSinglRootBase64", func() (*boc.Cell, error) { return boc.DeserializeSinglRootBase64(b64) }),
+	}, pan
 }
 
 // postLimit: wall-clock allowance for Hash + ToString + ToBoc on the roots of an accepted input.
@@ -196,6 +245,8 @@ func adversarial() [][]byte {
 		h("68ff65f3010101000003000000"), h("acc3a72801010100000300000000000000"),
 		h("b5ee9c72c1010101000200000000000000"),   // crc flag, wrong crc
 		h("b5ee9c7241010100020000004cacb9cd"),
+		h("b5ee9c72010100000000"),                 // no cells, no roots, no data: nothing to return
+		h("b5ee9c72010101000002" + "0000"),        // one cell, no root
 		h("b5ee9c7201010101000201"),               // d2 odd, no data
 		h("b5ee9c72010101010003000100"),           // odd d2 with zero byte: no completion tag
 	}
